@@ -76,6 +76,27 @@ CHECKS = {
         note="Kernel scheduling is perturbed, not enumerated. Timeouts used with finishing children are >= 30 s; the band around the timeout is never generated. Process trees (grandchildren holding the pipe) are not generated.",
         design="DESIGN.md §4 C16",
     ),
+    "C08": dict(
+        engine="python (vlib/p_c08.py) driving the real naija binaries",
+        technique="runtime monitoring of process exit status: recursion and nesting shapes x a depth ladder with bisection of each transition x debug and release CLI builds under an explicit 8 MiB RLIMIT_STACK",
+        text="Held on N runs: for every recursion shape (direct, mutual, through arguments, conditions, indexes, array literals, built-in arguments, interpolation, with 0-32 locals and 0-8 parameters, inside nested statements) at every probed depth the process ends normally or with the 'Stack overflow' runtime error, in both build profiles. Syntactic nesting shapes crash the unguarded parser/checker natively from a measured depth; those are genuine defects recorded as known findings, keyed by (shape, phase, profile), so that a crash of any other shape or phase (e.g. a recursion shape the runtime guard no longer catches) is still a violation. The evidence lists per shape and profile the largest depth that completed and what happened above it.",
+        note="Depth is sampled (ladder + bisection), not exhausted. Allocation-failure aborts and 120 s watchdog kills are resource outcomes (inconclusive). Children run with a fixed environment and ASLR disabled (setarch -R) so thresholds are repeatable.",
+        design="DESIGN.md §4 C08, §6",
+    ),
+    "C17": dict(
+        engine="python (vlib/p_c17.py) driving the real naija binaries",
+        technique="runtime monitoring at the process boundary: an echo script run under 16 input-delivery schedules (file, pipe in one write, fixed/random chunk sizes with pauses, boundaries around every newline, pty), oracle text.split on the input; strace records the read sizes actually returned",
+        text="Held on N runs: the k-th read_line call returned the k-th line of the input without its newline, then the final partial line, then empty strings, for 0-40 lines of lengths up to 70 000 bytes with 1-4-byte characters, with and without final newline, however the bytes were split across writes. The evidence measures (strace) in how many runs several lines arrived in one read, a line was split across reads, or a read boundary fell inside a multi-byte character.",
+        note="`\\r` is not generated (the property does not say whether it belongs to the terminator); invalid UTF-8 only has to end without a crash.",
+        design="DESIGN.md §4 C17",
+    ),
+    "C18": dict(
+        engine="limits",
+        technique="runtime monitoring of the analysis pipeline around each default cap: program families sized by search on the observed metric to cap-1/cap/cap+1, contract evaluated on observed warnings, plan, skipped statements (hook) and output",
+        text="Held on 11 metric families x {below, at, above}: every program is accepted and prints exactly its known result; within all caps the analyses run as usual (sentinel warnings, plan, statements skipped at run time), above any cap there is exactly one resource-limit warning and no analysis warning, plan or pruning; the crate's limit decision agrees with the caps. The evidence table shows which bound actually fires around each cap (some caps are pre-empted by derived bounds).",
+        note="Library run with 16 GiB arenas; the thorough tier also runs the within-cap programs through the release CLI (256 MiB scratch arenas). Two families are skipped in the quick tier because the resolver needs minutes on them.",
+        design="DESIGN.md §4 C18",
+    ),
     "C04": dict(
         engine="sem",
         technique="runtime monitoring: generated scope-heavy programs with site-unique values against a reference interpreter with real lexical closures",
